@@ -3,7 +3,7 @@
 # Runs quick checks against a scratch worktree of /repo with the patch applied (does not touch /repo).
 set -u
 patch=$(realpath $1); shift
-S=/tmp/seedrun
+S=${SCRATCH_DIR:-/tmp/seedrun}   # several instances may run side by side, each with its own SCRATCH_DIR
 if [ ! -d $S/repo ]; then mkdir -p $S; git -C /repo worktree add --detach $S/repo HEAD -q; fi
 git -C $S/repo checkout -q --detach $(git -C /repo rev-parse HEAD); git -C $S/repo checkout -q -- .
 rsync -a --delete --exclude target /verif/harness/ $S/harness/
